@@ -6,6 +6,7 @@ package zzvh
 
 import (
 	"fmt"
+	"math"
 
 	"github.com/evolbioinfo/gotree/tree"
 )
@@ -162,6 +163,7 @@ const (
 	lenAll  = 0 // every branch has a symbolic length >= 0
 	lenNone = 1 // no branch has a length
 	lenAny  = 2 // every branch: symbolic, -1 (absent) or >= 0
+	lenAny0 = 3 // observer mode only: absent counts 0, no case split (math.Max(0,l))
 )
 
 func decorate(t *tree.Tree, lenMode int, supports bool) {
@@ -415,6 +417,9 @@ func splitsOf(t *tree.Tree, lenMode int) map[uint64]*splitInfo {
 			si.length += e.Length()
 			si.haslen = true
 		case lenNone:
+		case lenAny0:
+			si.length += math.Max(0, e.Length())
+			si.haslen = true
 		default:
 			if e.Length() != tree.NIL_LENGTH {
 				si.length += e.Length()
